@@ -199,7 +199,7 @@ def tree_cases(draw, max_leaves, route=None):
 @st.composite
 def list_cases(draw, max_leaves, route=None):
     n = draw(st.integers(1, max_leaves))
-    k = draw(st.integers(0, 3))
+    k = 3 - draw(st.integers(0, 3))
     trees = [draw(tree_objects(max_leaves, n_taxa=n)) for _ in range(k)]
     obj = {"kind": "treelist", "n": n, "hist": draw(shapes.namespace_history(n, max_extra=2)), "trees": trees,
            "label": draw(st.sampled_from([None, "trees"])), "ldec": draw(decor(builtin=("label",), refs=True)),
@@ -216,8 +216,9 @@ def list_cases(draw, max_leaves, route=None):
 def matrix_cases(draw, max_taxa, max_cols, route=None):
     dtype = draw(st.sampled_from(sorted(MATRIX_TYPES)))
     n = draw(st.integers(1, max_taxa))
-    ncol = draw(st.integers(0, max_cols))
-    have = draw(st.lists(st.integers(0, n - 1), unique=True, max_size=n))
+    ncol = max_cols - draw(st.integers(0, max_cols))
+    drop = set(draw(st.lists(st.integers(0, n - 1), unique=True, max_size=n)))
+    have = [i for i in draw(st.permutations(list(range(n)))) if i not in drop]
     ragged = draw(st.integers(0, 4)) == 0
     rows = []
     for i in have:
@@ -245,7 +246,7 @@ def ns_cases(draw, max_taxa, route=None):
     obj = {"kind": "namespace", "n": n, "hist": draw(shapes.namespace_history(n, max_extra=2)),
            "label": draw(st.sampled_from([None, "taxa"])), "nsdec": draw(decor(builtin=("label",))),
            "xdec": [[draw(st.integers(0, max(0, n - 1))), draw(decor())] for _ in range(draw(st.integers(0, 3)) if n else 0)],
-           "case_sensitive": draw(B), "immutable": draw(st.integers(0, 5)) == 0, "bitmasks_cached": draw(B)}
+           "case_sensitive": draw(B), "immutable": draw(st.integers(0, 5)) == 5, "bitmasks_cached": draw(B)}
     return {"obj": obj, "route": route or draw(st.sampled_from(NS_ROUTES)), "mut": draw(muts(NS_MUTS))}
 
 
@@ -1155,9 +1156,7 @@ def check_matrix(ctx, case):
         if depth == "foreign":
             got = observe_matrix(cp, roster_c, mode="label")
             want = observe_matrix(src, roster_s, mode="label")
-            # rows are listed in namespace order, which is the foreign namespace's own: compare as a mapping
-            got["main"]["rows"] = sorted(got["main"]["rows"], key=lambda r: str(r["taxon"]))
-            want["main"]["rows"] = sorted(want["main"]["rows"], key=lambda r: str(r["taxon"]))
+            # (in label mode rows and character types are listed in label order: the namespace order is the foreign one's own)
         else:
             got = observe_matrix(cp, roster_c)
             want = pre
@@ -1403,8 +1402,8 @@ for _r in NS_ROUTES:
 def run(ctx):
     quick = ctx.tier == "quick"
     # examples per route over all shards
-    per_route = {"tree": 200 if quick else 7000, "treelist": 80 if quick else 2500, "matrix": 140 if quick else 5000,
-                 "namespace": 80 if quick else 2500}
+    per_route = {"tree": 200 if quick else 12000, "treelist": 80 if quick else 4000, "matrix": 140 if quick else 8000,
+                 "namespace": 80 if quick else 4000}
     runner.run_items(ctx, "exhaustive", exhaustive_items([1] if quick else [0, 1, 6]), check_exh)
     # rotate so that, should the time budget bite, every shard drops a different tail
     plan = PLAN[ctx.shard % len(PLAN):] + PLAN[:ctx.shard % len(PLAN)]
